@@ -72,7 +72,7 @@ fn start_tokio(threads: usize, gate: Arc<Gate>, bind_addr: SocketAddr, signal_fi
 pub fn run(ctx: &Ctx) {
     ctx.rule("tokio runtime: the same traffic states, signal timings and bind addresses as the threaded check, with async handlers and a CancellationToken; the runtime stays alive after `run` returns so that in-flight connection tasks can finish (as in a program that continues after run)");
     ctx.assume("tokio: connection handling is not limited by a pool, so `threads` only sizes the runtime (1..4 workers)");
-    let cases = ctx.tier.pick(480u32, 12000u32);
+    let cases = ctx.tier.pick(1440u32, 12000u32);
     let nshards = 16;
     crate::engine::shards(nshards, |i| {
         pt::run(
